@@ -309,7 +309,7 @@ P = HistProp('C04', _worlds, lambda w, t: [NoTrace(tier=t)], D,
                   'crossings per bundle); oracle: the call raised => dump, schema, Calculate and the '
                   'behaviour of three follow-up bundles are exactly those of an engine that never saw '
                   'the failure; non-trivial = the faulted bundle raised after at least one seam '
-                  'crossing', budget={'quick': 900, 'thorough': 6000})
+                  'crossing', budget={'quick': 900, 'thorough': 2400})
 
 
 def run(tier, report):
